@@ -6,10 +6,10 @@ BASE = ("Lean 4.33 kernel; axioms propext/Classical.choice/Quot.sound only (audi
         "the model is hand-written and tied to /repo's working tree by a differential run of the real C++ against the compiled Lean model on every run; ")
 CHECKS = {
  "C01": dict(
-    text="Lean theorems (Props/C01.lean): the legal-move oracle is exactly the legality predicate of the executable FIDE specification; soundness of the acceptor genCheck (if it accepts the real generator's dump for a position then the pseudo-legal list, the isLegal verdicts, removeIllegal, givesCheck, evasions, captures and captures-and-checks have every property C01 asks for, without duplicates); geometric core of the king-ray shortcut. The acceptor is run on the real MoveGen output for every generated position; attack/direction/between tables are compared with the ray-walk definition (exhaustively in thorough).",
-    note=BASE + "the rules of chess are the trusted text Chess/Spec.lean (perft-validated); the algorithms of moveGen.cpp themselves are not modelled (only their outputs are judged, per position); capture/check classes exclude rook/bishop under-promotions (deliberately omitted by the code).",
-    technique="Lean 4 proof (spec oracle + acceptor soundness) + per-position acceptance of the real generator's output + exhaustive table comparison",
-    design="6/C01"),
+    text="Lean theorems (Props/C01.lean, 24): (a) the legal-move oracle is the legality predicate of the executable FIDE specification and the acceptor genCheck is sound; (b) about executable Lean models of the algorithms of moveGen.cpp on 64-bit bitboards: sqAttacked/inCheck equal the specification; sliding attack sets depend on the occupancy only through the inner mask, so the exhaustive table comparison over mask subsets extends to all 2^64 occupancies; isLegal (all five paths incl. castling, the king-ray and same-direction shortcuts) and removeIllegal return exactly 'the mover's king is not attacked after the move'; pseudoLegalMoves generates exactly the moves obeying the movement rules, without duplicates; pseudoLegalMoves followed by removeIllegal is a permutation of the legal moves; checkEvasions and pseudoLegalCaptures omit no legal move of their class. givesCheck and captures-and-checks are modelled and compared but not proved; for them the per-position acceptor remains the argument.",
+    note=BASE + "the models follow the C++ statement by statement and are tied by an ordered differential on every generated position (lists in generation order, verdict per move); hypotheses GenWF (piece codes 0..12, one king of the mover, empty e.p. square) re-checked on every tested position; trusted: Chess/Spec.lean as the rules, C02 for 'bitboards = bitboards of the board', the lookup shape tbl[sq][f(occ & mask)], ascending extractSquare order, no MoveList overflow.",
+    technique="Lean 4 proof about hand-written executable models of the generator's algorithms + ordered differential of the real MoveGen against the compiled models on every position + proven acceptor + exhaustive table comparison",
+    design="6/C01, notes/C01.md"),
  "C02": dict(
     text="Lean theorems (Props/C02.lean, 33): an incremental Position model (bitboards, hash keys, material id and sums, king squares, flags, counters; Zobrist tables, piece values and MatId weights abstract) with Inv = 'every redundant field equals its from-scratch recomputation'; every primitive, makeMove, unMakeMove and the null-move edits preserve Inv; makeMove refines the specification's apply; unMake . make = identity on every field; history invariants for arbitrary op lists; equal positions under the draw rules have equal hash keys; (de)serialisation round trip under exactly the field-width conditions (with necessity witnesses); FEN round trip for reader-accepted positions; MatId range / injectivity for the repaired unsigned arithmetic and overflow witnesses for the pinned code.",
     note=BASE + "that every legally reachable position satisfies the FEN reader's well-formedness is covered by the differential on visited positions, not proved; deSerialize modelled as fresh . decode.",
